@@ -152,7 +152,7 @@ func init() {
 			}
 			out := append([]Value{}, dst.a[dst.off:dst.off+dst.n]...)
 			for i := 0; i < len(ct)-16; i++ {
-				out = append(out, in.nondet("u8", 8))
+				out = append(out, in.nondet("env_u8", 8))
 			}
 			return Tuple{SliceV{a: out, n: len(out), c: len(out)}, Iface{}}
 		}
@@ -184,7 +184,7 @@ func init() {
 	nativeMethods["randreader.Read"] = func(in *Interp, fr *frame, a []Value) Value {
 		buf := a[1].(SliceV)
 		for i := 0; i < buf.n; i++ {
-			buf.a[buf.off+i] = in.nondet("u8", 8)
+			buf.a[buf.off+i] = in.nondet("env_u8", 8)
 		}
 		return Tuple{in.lenTerm(buf.n), Iface{}}
 	}
